@@ -9,11 +9,12 @@ def run(tier, seed):
     tasks = PC.make_tasks(tier, seed, ORACLES, layouts=["lf", "crlf", "comments"], layout_depth=2, post="c18suffix",
                           base_layout="mixed", include_noreq=True)
     results = pool.run_tasks("checks.parser_common:task", tasks)
-    results += pool.run_tasks("checks.parser_common:valid_task", PC.valid_tasks(tier, seed, ORACLES, post="c18suffix", base_layout="lf", edit_layouts=(["mixed"] if tier == "quick" else ["mixed", "crlf", "comments"])))
+    results += pool.run_tasks("checks.parser_common:valid_task", PC.valid_tasks(tier, seed, ORACLES, post="c18suffix+reuse", base_layout="lf", edit_layouts=(["mixed"] if tier == "quick" else ["mixed", "crlf", "comments"])))
     cov, viols, harness = PC.assemble(results)
     cov["rule"] += (" C18: base layout 'mixed' (cycling blank, LF, inline bracket comment with multi-byte text, CRLF, hash comment, "
                     "tab, blank line) so tokens land on many (line, byte column) positions; every rejected word is compared with the "
-                    "reference's first invalidating token and re-run with 4 suffixes.")
+                    "reference's first invalidating token and re-run with 4 suffixes; every generated form and single-token edit is also parsed on "
+                    "a parser that has just refused another multi-line script (same error and error_pos as on a fresh parser).")
     return dict(violations=viols, coverage=cov, harness_errors=harness, assumptions=PC.ASSUMPTIONS)
 
 
